@@ -566,12 +566,13 @@ corollary("C07.quadratic_form.constant", props=["C07"],
 
 
 # ---- weighted (adaptive-brightness) scheme: mu(a, b) = wm(a, b) + wm(b, a) = w_b^2 mult(a, b) + w_a^2 mult(b, a), deg = nw + win, kappa = 1
-# c07_clw: sum over k < K with nb[a, k] < m of w[nb[a, k]]^2
+# c07_clw: sum over k < K with 0 <= nb[a, k] < m of w[nb[a, k]]^2
 spec_fn("c07_clw", params=[("w", "real[1]"), ("nb", "int[2]"), ("a", "int"), ("m", "int"), ("K", "int")], ret="real",
         axioms=["forall(0, nb.shape[0], lambda a: forall(0, nb.shape[0] + 1, lambda m: c07_clw(w, nb, a, m, 0) == 0, pat=c07_clw(w, nb, a, m, 0)))",
-                "forall(0, nb.shape[0], lambda a: forall(0, nb.shape[0] + 1, lambda m: forall(0, nb.shape[1], lambda K:"
-                " c07_clw(w, nb, a, m, K + 1) == c07_clw(w, nb, a, m, K) + (w[nb[a, K]] * w[nb[a, K]] if nb[a, K] < m else 0), pat=c07_clw(w, nb, a, m, K + 1))))"],
-        py=lambda w, nb, a, m, K: float(sum(w[nb[a, k]] ** 2 for k in range(K) if nb[a, k] < m)))
+                "implies(w.shape[0] >= nb.shape[0], forall(0, nb.shape[0], lambda a: forall(0, nb.shape[0] + 1, lambda m: forall(0, nb.shape[1], lambda K:"
+                " c07_clw(w, nb, a, m, K + 1) == c07_clw(w, nb, a, m, K) + (w[nb[a, K]] * w[nb[a, K]] if 0 <= nb[a, K] and nb[a, K] < m else 0),"
+                " pat=c07_clw(w, nb, a, m, K + 1)))))"],
+        py=lambda w, nb, a, m, K: float(sum(w[nb[a, k]] ** 2 for k in range(K) if 0 <= nb[a, k] < m)))
 _MUW = "c07_wm(w, nb, {a}, {b}, sz[{a}]) + c07_wm(w, nb, {b}, {a}, sz[{b}])"
 _DEGW = "c07_nw(w, nb, {a}, sz[{a}]) + c07_win(w, nb, sz, {a}, P)"
 
